@@ -245,6 +245,19 @@ class ExprMixin:
             c = value_node.operand.value
             if isinstance(value_node.op, ast.USub) and isinstance(c, (int, float)):
                 return mk_int(-c) if isinstance(c, int) else mk_float(-c)
+        if isinstance(value_node, (ast.BinOp, ast.UnaryOp)) and all(
+                isinstance(n, (ast.BinOp, ast.UnaryOp, ast.Constant, ast.operator, ast.unaryop))
+                for n in ast.walk(value_node)):
+            try:
+                c = eval(compile(ast.Expression(body=value_node), "<const>", "eval"), {"__builtins__": {}})  # noqa: S307
+                if isinstance(c, bool):
+                    return mk_bool(c)
+                if isinstance(c, int):
+                    return mk_int(c)
+                if isinstance(c, float):
+                    return vals.mk_fp(c) if self.fp_mode else mk_float(c)
+            except Exception:  # noqa: BLE001
+                pass
         if name in ("_LOGGER", "_logger", "logger", "LOGGER"):
             return BuiltinRef("$logger")
         key = f"{module}.{name}"
@@ -858,9 +871,26 @@ class ExprMixin:
         yield from go(0, st, [])
 
     def ev_Dict(self, e, st):
-        if e.keys:
-            raise EngineError("non-empty dict literal")
-        yield st, V(TMap(TOpaque("$empty"), NONE), [z3.K(zsort(TOpaque("$empty")), z3.BoolVal(False))])
+        if not e.keys:
+            yield st, V(TMap(TOpaque("$empty"), NONE), [z3.K(zsort(TOpaque("$empty")), z3.BoolVal(False))])
+            return
+        if any(k is None for k in e.keys):
+            raise EngineError("dict literal with ** unpacking")
+
+        def go(i, st, acc):
+            if i == len(e.keys):
+                kt, vt = acc[0][0].t, acc[0][1].t
+                for k, v in acc[1:]:
+                    kt, vt = vals.join_type(kt, k.t), vals.join_type(vt, v.t)
+                m = vals.empty_map(TMap(kt, vt))
+                for k, v in acc:     # later entries overwrite earlier ones with an equal key
+                    m = vals.map_put(m, coerce(k, kt), coerce(v, vt))
+                yield st, m
+                return
+            for st1, k in self.ev(e.keys[i], st):
+                for st2, v in self.ev(e.values[i], st1):
+                    yield from go(i + 1, st2, acc + [(self.as_value(k), self.as_value(v))])
+        yield from go(0, st, [])
 
     # ------------------------------------------------------------------ subscripts
     def ev_Subscript(self, e, st):
